@@ -88,6 +88,7 @@ func vfC07_Server() {
 	c := &vfConn{}
 	c.data = stream
 	c.frags = vfCase("frags")
+	c.shorts = vfCase("shorts")
 	req, err := server.HandleStream(c, zap.NewNop())
 
 	if !offered {
